@@ -10,7 +10,7 @@ use serde_json::{json, Value};
 
 pub fn plan05(tier: Tier) -> Plan {
     let mut checks: Vec<Box<dyn Check>> = Vec::new();
-    let (dt, dd) = if tier == Tier::Quick { (10, 8) } else { (13, 10) };
+    let (dt, dd) = if tier == Tier::Quick { (10, 8) } else { (14, 11) };
     for p in pgrid() {
         checks.push(qcheck(Mode::C05, p, "qties", dt, 0.0));
     }
@@ -100,7 +100,7 @@ pub fn plan07(tier: Tier) -> Plan {
 pub fn plan15(tier: Tier) -> Plan {
     let mut checks: Vec<Box<dyn Check>> = Vec::new();
     checks.push(Box::new(CtorCheck));
-    let (dt, dd) = if tier == Tier::Quick { (10, 8) } else { (13, 10) };
+    let (dt, dd) = if tier == Tier::Quick { (10, 8) } else { (14, 11) };
     for p in pgrid() {
         checks.push(qcheck(Mode::C15, p, "qties", dt, 0.0));
     }
